@@ -162,4 +162,23 @@ gen_ints(L, U) :-
 %    X = [5,6,7,8,9,10].
 % ```
 numlist(Lower, Upper, List) :-
-    gen_ints(Lower, Upper), findall(X, between(Lower, Upper, X), List).
+    can_be(integer, Lower), can_be(integer, Upper),
+    (   '$skip_max_list'(N, _, List, Tail), Tail == [] ->
+        % List is a proper list: its length fixes Upper - Lower, so at most one bound is searched for
+        N > 0,
+        (   integer(Lower) -> true
+        ;   integer(Upper) -> Lower is Upper - N + 1
+        ;   numlist_anchor(List, 0, Lower), gen_int(Lower)
+        ),
+        Upper is Lower + N - 1,
+        findall(X, between(Lower, Upper, X), List)
+    ;   gen_ints(Lower, Upper), findall(X, between(Lower, Upper, X), List)
+    ).
+
+% Lower such that the first integer element of the list is at its place in [Lower, Lower+1, ...];
+% left unbound when all elements are variables
+numlist_anchor([], _, _).
+numlist_anchor([E|Es], I0, Lower) :-
+    (   integer(E) -> Lower is E - I0
+    ;   var(E), I is I0 + 1, numlist_anchor(Es, I, Lower)
+    ).
